@@ -1588,6 +1588,7 @@ func (x *Exec) returnInstr(in *ssa.Return) {
 		}
 	}
 	env := x.envAt(rs)
+	env.paramsEntry = true
 	for _, c := range x.fc.Ensures {
 		t := x.evalBool(c.Expr, env, c)
 		x.oblige("post", c.Label, c.Tags, len(c.Tags) == 0, t, c.Src, c.Where+" @return "+x.pos(in.Pos()))
